@@ -805,6 +805,20 @@ def rule_m4(repo, res):
     res.oblige("M4", f"{CONTAINER}.__getitem__(int/slice) indexes the item list", ok=ok)
     if not ok:
         F("__getitem__", "index access", "integer/slice indexing no longer reads the item list")
+    # get(key): when the class provides it itself (instead of the Mapping mix-in, which goes through __getitem__), the value it
+    # returns for a present key is the first one: self[key], getall(key)[0] -- not .pop() / [-1] (the last value)
+    if "get" in ci.methods:
+        gfn = M["get"]
+        last = [x for x in ast.walk(gfn) if (isinstance(x, ast.Call) and isinstance(x.func, ast.Attribute) and x.func.attr == "pop"
+                                             and not x.args and isinstance(x.func.value, ast.Call))
+                or (isinstance(x, ast.Subscript) and isinstance(x.slice, ast.UnaryOp) and isinstance(x.slice.op, ast.USub))]
+        firsts = [x for x in ast.walk(gfn) if isinstance(x, ast.Subscript) and ((isinstance(x.value, ast.Name) and x.value.id == "self")
+                                                                                 or (isinstance(x.slice, ast.Constant) and x.slice.value == 0))]
+        ok = not last and bool(firsts)
+        res.oblige("M4", f"{CONTAINER}.get(key) returns the first value of the key (as __getitem__ does)", ok=ok)
+        if not ok:
+            F("get", "first value", f"get() {'takes `' + norm(last[0], 50) + '` -- the LAST value of a repeated key' if last else 'does not read self[key] / element [0]'}: "
+              "d.get(k) and d[k] disagree for a key that occurs more than once")
     # getall -> all values in order (a copy)
     fn = M["getall"]
     ok = any(isinstance(r, ast.Return) and isinstance(r.value, ast.Call) and norm(r.value.func) == "list" and r.value.args and
@@ -1142,3 +1156,53 @@ def rule_p8(repo, res):
                                     "insert / insert_before / insert_after, which accept it) cannot be copied, deep-copied or pickled",
                                     where=f"pvl/collections.py:{st.lineno}"))
     res.oblige("P8", f"{CONTAINER}.append accepts every pair ({n} raise statement(s) examined)", ok=True, nontrivial=False)
+
+
+def rule_p9(repo, res):
+    """P9: the constructor (and extend, which it calls) takes the *empty* list of pairs: the reduction of an empty
+    container -- the module of an empty label, a GROUP without statements at any depth -- is `type(self)([])`, replayed
+    by copy.copy, copy.deepcopy and pickle.  So neither of them looks at a first / last element of its argument
+    (`args[0][0]`, `pairs[-1]`) unless a test of that very expression's non-emptiness dominates the access."""
+    ci = repo.cls(CONTAINER)
+    n = 0
+    for name in ("__init__", "extend"):
+        fn = ci.methods.get(name)
+        if fn is None:
+            continue
+        for sub in [x for x in ast.walk(fn) if isinstance(x, ast.Subscript) and isinstance(x.ctx, ast.Load)]:
+            idx = sub.slice
+            const = (isinstance(idx, ast.Constant) and isinstance(idx.value, int)) or \
+                (isinstance(idx, ast.UnaryOp) and isinstance(idx.op, ast.USub) and isinstance(idx.operand, ast.Constant))
+            if not const:
+                continue
+            base = norm(sub.value)
+            # args[0] itself is guarded by the usual len(args) test; what matters is an element *of an argument*
+            if not (isinstance(sub.value, ast.Subscript) or (isinstance(sub.value, ast.Name) and sub.value.id not in ("args", "kwargs", "self"))):
+                continue
+            n += 1
+            guarded = False
+            x = sub
+            while x is not None and x is not fn:
+                p = getattr(x, "_parent", None)
+                tests = []
+                if isinstance(p, ast.BoolOp) and isinstance(p.op, ast.And) and x in p.values:
+                    tests += p.values[:p.values.index(x)]
+                if isinstance(p, (ast.If, ast.While)) and x is not p.test and x in p.body:
+                    tests.append(p.test)
+                for t in tests:
+                    for y in ast.walk(t):
+                        if (isinstance(y, ast.Call) and norm(y.func) == "len" and y.args and norm(y.args[0]) == base) or \
+                                (isinstance(y, (ast.Name, ast.Subscript)) and norm(y) == base and isinstance(getattr(y, "_parent", None), (ast.BoolOp, ast.If, ast.UnaryOp))):
+                            guarded = True
+                if isinstance(p, ast.Try) and x in p.body and any(h.type is None or "IndexError" in norm(h.type) or norm(h.type) in ("Exception", "LookupError")
+                                                                   for h in p.handlers):
+                    guarded = True
+                x = p
+            res.oblige("P9", f"{CONTAINER}.{name}: `{norm(sub)}` is reached only when `{base}` is known to be non-empty", ok=guarded)
+            if not guarded:
+                res.add(Finding("P9", f"{CONTAINER}.{name}", f"`{norm(sub)}` on a possibly empty argument",
+                                f"{CONTAINER}.{name} reads `{norm(sub)}` without a test that `{base}` is not empty: the copy routes rebuild "
+                                "an empty container (an empty module, a GROUP without statements) as type(self)([]), so copy.copy, "
+                                "copy.deepcopy and pickle of a label that contains one raise IndexError",
+                                where=f"pvl/collections.py:{sub.lineno}"))
+    res.oblige("P9", f"{CONTAINER}.__init__ / extend accept the empty list of pairs ({n} element accesses examined)", ok=True, nontrivial=False)
